@@ -1,6 +1,6 @@
 (* C05 driver.  One program per line (whitespace separated tokens):
      block := "(" (id stmt)* ")"
-     stmt  := L x q | A x | U x | F f np p1..pnp block | C f n | O block | I block block | W block | P block
+     stmt  := L x q | A x | U x | AF x | UF x | F f np p1..pnp block | C f n | O block | I block block | W block | P block
             | R block | S els "[" block* "]" block | B | N | T | J l | G l | D block | X len k | V t v
    (q: 0 var 1 const 2 comptime; len,k,v: signed hex).
    Output: <offenders id:kind ...> TAB <rule_ok flow names labels consts as 0/1> *)
@@ -27,6 +27,8 @@ let parse (toks : string array) : block =
       let q = (match next () with "0" -> QVar | "1" -> QConst | _ -> QComptime) in Local (x, q)
     | "A" -> Assign (num ())
     | "U" -> Use (num ())
+    | "AF" -> AssignF (num ())
+    | "UF" -> UseF (num ())
     | "F" -> let f = num () in let np = int_of_string (next ()) in
       let rec ps i = if i = 0 then [] else let p = num () in p :: ps (i - 1) in
       let p = ps np in let b = block () in Func (f, p, b)
